@@ -173,7 +173,10 @@ def tuple_elems(ty):
 
 def is_scalar(ty):
     t = ty.strip()
-    return t in INT_BITS or t == 'bool'
+    return t in INT_BITS or t == 'bool' or t in TIME_TYPES
+
+
+TIME_TYPES = {'std::time::Duration', 'Duration', 'std::time::Instant', 'Instant'}
 
 
 def sort_of(ty):
@@ -182,6 +185,8 @@ def sort_of(ty):
         return z3.BoolSort()
     if t in INT_BITS:
         return z3.BitVecSort(INT_BITS[t])
+    if t in TIME_TYPES:
+        return z3.BitVecSort(64)      # abstract nanoseconds (Duration) / abstract monotone clock reading (Instant)
     return None
 
 
